@@ -591,3 +591,81 @@ Section FormattedRandEmbed.
     end.
   Definition formatted_rand_embed : prov := {| St := rstate P; init := (init P, 0); step := frande_step |}.
 End FormattedRandEmbed.
+
+(* ---------- provider level: spi/storage.Provider (OpenStore / SetStoreConfig / GetStoreConfig / GetOpenStores / Close)
+   and Store.Close, over several named stores.  Store names are numbers (0 = blank; the spellings "st1" / "ST1" are the
+   same number: names are not case-sensitive).  C13 (locking of the provider maps) and C12 (store configuration through
+   formattedstore) speak about these operations. ---------- *)
+Inductive pop :=
+| POpen (n : N)
+| PSetCfg (n : N) (tags : list N)
+| PGetCfg (n : N)
+| PGetOpen
+| PClose
+| PStoreClose (n : N)
+| PStore (n : N) (o : op).                 (* an operation on the store handle obtained from OpenStore *)
+
+Inductive pout :=
+| PDone | PErr
+| PNoStore                                   (* an error wrapping ErrStoreNotFound *)
+| PCfg (tags : list N)
+| POpenSet (ns : list N)                     (* the stores returned by GetOpenStores, as sorted names *)
+| POut (x : out).
+
+Record sstate := mk_ss { ss_data : store; ss_cfg : list N; ss_open : bool }.
+Definition pstate := list (N * sstate).
+
+Fixpoint plookup (p : pstate) (n : N) : option sstate :=
+  match p with [] => None | (n', s) :: r => if N.eqb n n' then Some s else plookup r n end.
+Fixpoint premove (p : pstate) (n : N) : pstate :=
+  match p with [] => [] | (n', s) :: r => if N.eqb n n' then premove r n else (n', s) :: premove r n end.
+Definition pset (p : pstate) (n : N) (s : sstate) : pstate := (n, s) :: premove p n.
+Fixpoint insert_n (x : N) (l : list N) : list N :=
+  match l with [] => [x] | y :: r => if N.leb x y then x :: l else y :: insert_n x r end.
+Definition open_names (p : pstate) : list N :=
+  fold_right insert_n [] (map fst (filter (fun ns => ss_open (snd ns)) p)).
+
+Section ProviderLevel.
+  Variable persist : bool.                              (* Close keeps the data and the configuration (a database on disk) *)
+  Variable sstep : store -> op -> store * out.          (* the store-level machine *)
+  Definition pstep (p : pstate) (o : pop) : pstate * pout :=
+    match o with
+    | POpen n =>
+        if N.eqb n 0 then (p, PErr) else
+        match plookup p n with
+        | Some s => (pset p n (mk_ss (ss_data s) (ss_cfg s) true), PDone)
+        | None => (pset p n (mk_ss [] [] true), PDone)
+        end
+    | PSetCfg n tags =>
+        if existsb (N.eqb colon) tags then (p, PErr) else
+        match plookup p n with
+        | Some s => if ss_open s then (pset p n (mk_ss (ss_data s) tags true), PDone) else (p, PNoStore)
+        | None => (p, PNoStore)
+        end
+    | PGetCfg n =>
+        match plookup p n with
+        | Some s => if ss_open s || persist then (p, PCfg (ss_cfg s)) else (p, PNoStore)
+        | None => (p, PNoStore)
+        end
+    | PGetOpen => (p, POpenSet (open_names p))
+    | PClose =>
+        (if persist then map (fun ns => (fst ns, mk_ss (ss_data (snd ns)) (ss_cfg (snd ns)) false)) p else [], PDone)
+    | PStoreClose n =>
+        match plookup p n with
+        | Some s => ((if persist then pset p n (mk_ss (ss_data s) (ss_cfg s) false) else premove p n), PDone)
+        | None => (p, PDone)
+        end
+    | PStore n o =>
+        match plookup p n with
+        | Some s => if ss_open s then let '(d, x) := sstep (ss_data s) o in (pset p n (mk_ss d (ss_cfg s) true), POut x)
+                    else (p, PErr)
+        | None => (p, PErr)
+        end
+    end.
+  Fixpoint prun (p : pstate) (ops : list pop) : list pout :=
+    match ops with [] => [] | o :: r => let '(p1, x) := pstep p o in x :: prun p1 r end.
+End ProviderLevel.
+
+(* the documented provider-level contract, and the in-memory provider (Close deletes the store, data and configuration) *)
+Definition pspec_step (persist : bool) := pstep persist (spec_step persist).
+Definition mem_pstep := pstep false (mem_step true).
